@@ -21,13 +21,13 @@ import (
 )
 
 type Cfg struct {
-	Op    string `json:"op"`
-	Tr    string `json:"tr"`
-	Ctx   string `json:"ctx"`   // deadline | cancel
-	EndAt int    `json:"endat"` // 0 = the context has ended before the call, 1 = it ends while the call waits
-	Wait  string `json:"wait"`
-	Bound int    `json:"bound"` // seconds
-	Lat   int    `json:"lat"`   // seconds, as the model predicts
+	Op     string `json:"op"`
+	Tr     string `json:"tr"`
+	Ctx    string `json:"ctx"`   // deadline | cancel
+	EndAt  int    `json:"endat"` // 0 = the context has ended before the call, 1 = it ends while the call waits
+	Wait   string `json:"wait"`
+	Bound  int    `json:"bound"`  // seconds
+	Lat    int    `json:"lat"`    // seconds, as the model predicts
 	Blocks string `json:"blocks"` // whether the model says the call waits for the peer at all
 }
 type Case struct {
@@ -48,11 +48,11 @@ type Event struct {
 	Msg     string `json:"msg"`
 }
 type Result struct {
-	Matched bool   `json:"matched"`
-	N      int     `json:"n"`
-	Cfg    Cfg     `json:"cfg"`
-	Actual []Event `json:"actual"`
-	Note   string  `json:"note,omitempty"`
+	Matched bool    `json:"matched"`
+	N       int     `json:"n"`
+	Cfg     Cfg     `json:"cfg"`
+	Actual  []Event `json:"actual"`
+	Note    string  `json:"note,omitempty"`
 }
 
 // the moment a context ends "during" the call: late enough that a large envelope has been
